@@ -142,7 +142,13 @@ def run_case(case, ctx):
         modes_arg = [m - order if (negm and rs.rand() < 0.6) else m for m in modes]
         if negm and any(m < 0 for m in modes_arg):
             cls += "+negmodes"
-        f = lambda: tenalg.multi_mode_dot(T, list(ops), modes=(list(modes_arg) if explicit else None), skip=skip, transpose=transpose)
+        # the modes in any container a caller may pass, one-shot iterables included (reversed(...), a generator, map)
+        mform = gen.choice(rs, ["list", "list", "tuple", "array", "iterator", "generator"]) if explicit else "default"
+        if mform != "default" and mform != "list":
+            cls += "+modes-" + mform
+        mk_modes = {"default": lambda: None, "list": lambda: list(modes_arg), "tuple": lambda: tuple(modes_arg), "array": lambda: np.array(modes_arg),
+                    "iterator": lambda: iter(list(modes_arg)), "generator": lambda: (m_ for m_ in list(modes_arg))}[mform]
+        f = lambda: tenalg.multi_mode_dot(T, list(ops), modes=mk_modes(), skip=skip, transpose=transpose)
         r = ref.multi_mode_dot(T, ops, modes, skip, transpose)
         nontrivial = prod(shp) > 1
     elif fn == "kronecker":
@@ -176,7 +182,20 @@ def run_case(case, ctx):
                 mask = rs.permutation(flat).reshape(mask.shape).astype(dt)
         desc.update(mats=[list(m.shape) for m in mats], skip=skip, weights=w is not None, mask=mask is not None)
         cls = ("single" if len(rem) == 1 else "multi") + ("+weights" if w is not None else "") + ("+mask" if mask is not None else "")
-        f = lambda: tenalg.khatri_rao(list(mats), weights=w, skip_matrix=skip, mask=mask)
+        if w is not None and np.dtype(dt).kind == "f" and rs.rand() < 0.3:
+            # weights written out as plain Python numbers, next to an integer-valued selection / count matrix kept in an integer dtype:
+            # the product is the product of the values, whatever the containers
+            w_arg = [float(x) for x in w] if rs.rand() < 0.7 else tuple(float(x) for x in w)
+            if rs.rand() < 0.6:
+                j0 = 0 if skip != 0 else 1
+                if j0 < len(mats):
+                    mats[j0] = rs.randint(-2, 3, size=mats[j0].shape).astype(gen.choice(rs, ["int64", "int32"]))
+                    rem = [m for i, m in enumerate(mats) if i != skip]
+                    cls += "+int-first"
+            cls += "+listweights"
+        else:
+            w_arg = w
+        f = lambda: tenalg.khatri_rao(list(mats), weights=w_arg, skip_matrix=skip, mask=mask)
         r = ref.khatri_rao(mats, w, skip, mask)
         nontrivial = len(rem) > 1 or w is not None or mask is not None
     elif fn == "inner":
